@@ -76,8 +76,12 @@ def rule_helper(ctx, R):
     if "active_index_range" in fn:
         t, _ = _ret(lib, fn["active_index_range"])
         abr = C(H + "::active_block_range", Par(1))
-        ok = m(("agg", "core::ops::Range", "Range", (("start", B("Mul", F(abr, "start"), F(Par(1), "block_len"))),
-                                                       ("end", B("Mul", F(abr, "end"), F(Par(1), "block_len"))))), t)
+        # the block range through its accessor, or written out again (the same two expressions the accessor was checked for)
+        from .pat import OneOf as OneOf_
+        ab_start = OneOf_(F(abr, "start"), C(endswith("saturating_sub"), nb_, nf_))
+        ab_end = OneOf_(F(abr, "end"), nb_)
+        ok = m(("agg", "core::ops::Range", "Range", (("start", B("Mul", ab_start, F(Par(1), "block_len"))),
+                                                       ("end", B("Mul", ab_end, F(Par(1), "block_len"))))), t)
         ctx.check(ok, "H-RANGE", fn["active_index_range"], "active-index-range", fn["active_index_range"].span,
                   "active indices = active blocks scaled by block_len on both ends; found %s" % show(t), show(t))
     # ---- H-OFFSET / H-ACCESS: every access to self.items, anywhere in the helper, is items[idx % items.len()] behind the
@@ -149,8 +153,9 @@ def rule_helper(ctx, R):
                         lf = pe
                 if lf is not None:
                     owner = b
-                    ctx.check(owner is fn["active_block_range"], "KNOB-CONF", b, "knob-read-only-in-range", b.loc(bi, si),
-                              "the knob may be read only to compute the active block range")
+                    # (the two range accessors; what they compute from it is pinned by H-RANGE)
+                    ctx.check(owner is fn["active_block_range"] or owner is fn.get("active_index_range"), "KNOB-CONF", b,
+                              "knob-read-only-in-range", b.loc(bi, si), "the knob may be read only to compute the active block / index range")
     # ---- dropped_block
     db = fn["dropped_block"]
     t, dfv = _ret(lib, db)
